@@ -125,7 +125,7 @@ func genC16(t *rapid.T) C16Case {
 	if c.Unconf && !c.OnFork && (c.Basis == "behind" || c.Basis == "stale") {
 		c.ParentMined = rapid.IntRange(0, 1).Draw(t, "parentMined") == 0
 	}
-	if c.Unconf && !c.ParentMined && c.Basis != "unknown" {
+	if c.Unconf && !c.ParentMined && !c.OnFork && (c.Basis == "same" || c.Basis == "behind" || c.Basis == "stale") {
 		c.ParentPooled = rapid.IntRange(0, 3).Draw(t, "parentPooled") == 0
 	}
 	if !c.Unconf && !c.OnFork && (c.Basis == "behind" || c.Basis == "stale") {
@@ -221,9 +221,10 @@ func (w *c16World) syncAll() error {
 func newC16World(c C16Case) (w *c16World, err error) {
 	n, g := rhpc.Network()
 	w = &c16World{net: n}
+	world := w // "return nil, err" below clears w
 	defer func() {
 		if err != nil {
-			w.close()
+			world.close()
 		}
 	}()
 	if w.H, err = rhpc.NewParty("host", c16HostKey, n, g); err != nil {
@@ -469,7 +470,7 @@ func newC16World(c C16Case) (w *c16World, err error) {
 			if _, e := w.R.CM.AddV2PoolTransactions(w.R.CM.Tip(), []types.V2Transaction{txn}); e != nil {
 				return nil, fmt.Errorf("renter pool rejected its own sweep: %w", e)
 			}
-			if c.ParentPooled && c.Basis != "unknown" && !c.OnFork {
+			if c.ParentPooled && (c.Basis == "same" || c.Basis == "" || c.Basis == "behind" || c.Basis == "stale") && !c.OnFork {
 				// the host has already seen that transaction
 				if _, e := w.H.CM.AddV2PoolTransactions(w.R.CM.Tip(), []types.V2Transaction{txn}); e != nil {
 					return nil, fmt.Errorf("host pool rejected the renter's sweep: %w", e)
